@@ -10,6 +10,7 @@ import (
 	"strings"
 
 	scom "github.com/ontio/ontology/core/store/common"
+	"github.com/ontio/ontology/core/store/leveldbstore"
 	"pgregory.net/rapid"
 )
 
@@ -222,4 +223,49 @@ func fmtLayer(l layer) string {
 	}
 	sb.WriteString("}")
 	return sb.String()
+}
+
+// ---------------------------------------------------------------------------------------------
+// persistent layer
+
+var (
+	sharedStore     *leveldbstore.LevelDBStore
+	sharedStoreUses int
+)
+
+// freshStore returns an EMPTY in-memory goleveldb store. Opening a goleveldb costs a zeroed 4 MiB
+// write buffer (about 10 ms, more than a whole case), so one store is reused for up to 64 cases and
+// wiped in between; the wipe is verified (the store must iterate as empty), which makes a wiped
+// store observably equal to a new one. It is re-created regularly so that goleveldb's internal
+// tombstones do not pile up and slow the iterators down.
+func freshStore() *leveldbstore.LevelDBStore {
+	sharedStoreUses++
+	if sharedStore == nil || sharedStoreUses%64 == 0 {
+		if sharedStore != nil {
+			sharedStore.Close()
+		}
+		sharedStore = leveldbstore.NewMemLevelDBStore()
+		return sharedStore
+	}
+	it := sharedStore.NewIterator(nil)
+	var ks [][]byte
+	for ok := it.First(); ok; ok = it.Next() {
+		ks = append(ks, append([]byte{}, it.Key()...))
+	}
+	it.Release()
+	if len(ks) > 0 {
+		sharedStore.NewBatch()
+		for _, k := range ks {
+			sharedStore.BatchDelete(k)
+		}
+		if err := sharedStore.BatchCommit(); err != nil {
+			panic(err)
+		}
+	}
+	it = sharedStore.NewIterator(nil)
+	if it.First() {
+		panic("freshStore: wipe left keys behind")
+	}
+	it.Release()
+	return sharedStore
 }
